@@ -10,6 +10,48 @@ from fractions import Fraction
 from vflib.ref import handrank as hr
 
 
+def collection_faults(state):
+    """Independent rule for what a bet collection takes: with two or more
+    players still in, only the part of the largest bet that exceeds the
+    second-largest bet ON THE TABLE (dead bets of folded players count) goes
+    back; everything else is collected. (Untrimmed antes are collected in
+    full.)  Returns descriptions of collections that took something else."""
+    n = state.player_count
+    bets = [0] * n
+    alive = [True] * n
+    ante_phase = True
+    out = []
+    for k_op, op in enumerate(state.operations):
+        k = type(op).__name__
+        if k not in ('AntePosting', 'BetCollection', 'NoOperation'):
+            was_ante = ante_phase
+            ante_phase = False
+        if k in ('AntePosting', 'BlindOrStraddlePosting', 'BringInPosting',
+                 'CheckingOrCalling'):
+            bets[op.player_index] += op.amount
+        elif k == 'CompletionBettingOrRaisingTo':
+            bets[op.player_index] = op.amount
+        elif k == 'Folding':
+            alive[op.player_index] = False
+        elif k == 'BetCollection':
+            if sum(alive) >= 2:
+                if ante_phase and not state.ante_trimming_status:
+                    exp = list(bets)
+                else:
+                    cutoff = sorted(bets)[-2]
+                    exp = [min(b, cutoff) for b in bets]
+                if list(op.bets) != exp:
+                    out.append(
+                        f'bet collection #{k_op} took {list(op.bets)} from '
+                        f'bets {bets} (players in: {alive}); only the part '
+                        f'of the largest bet above the second-largest bet '
+                        f'on the table is uncalled: expected {exp}')
+            bets = [0] * n
+        elif k == 'ChipsPushing':
+            break
+    return out
+
+
 def contributions_from_log(state):
     """Chips each player has in the pot(s) when pushing starts, and the part
     of them that was posted as ante."""
@@ -106,6 +148,7 @@ def check(state, live, hole, rake_fn=None):
     TOL[0] = (type(total)('1e-9') if type(total).__name__ == 'Decimal'
               else 1e-9) * max(1, total) if inexact else 0
     contrib, antes = contributions_from_log(state)
+    v.extend(collection_faults(state)[:2])
     pots = ref_pots(state, contrib, antes, live)
     pushes = [op for op in state.operations
               if type(op).__name__ == 'ChipsPushing']
